@@ -2,8 +2,12 @@
 package checks
 
 import (
+	"bytes"
+	"context"
 	"fmt"
+	"os/exec"
 	"strings"
+	"time"
 
 	"github.com/gabriel-vasile/mimetype"
 	"github.com/gabriel-vasile/mimetype/internal/verifx/core"
@@ -105,4 +109,22 @@ func inChain(m *mimetype.MIME, name string) bool {
 		}
 	}
 	return false
+}
+
+// runChild runs a child process with a generous deadline (children normally
+// finish within seconds) and returns its combined output. timedOut reports
+// that the deadline passed: the child was killed; a child that never returns
+// must not hang the check.
+func runChild(timeout time.Duration, env []string, bin string, args ...string) (out string, err error, timedOut bool) {
+	ctx, cancel := context.WithTimeout(context.Background(), timeout)
+	defer cancel()
+	cmd := exec.CommandContext(ctx, bin, args...)
+	if env != nil {
+		cmd.Env = env
+	}
+	cmd.WaitDelay = 5 * time.Second
+	var ob bytes.Buffer
+	cmd.Stdout, cmd.Stderr = &ob, &ob
+	err = cmd.Run()
+	return ob.String(), err, ctx.Err() != nil
 }
